@@ -83,6 +83,17 @@ func RunCommitSync(seed int64, idx int) *Result {
 		cg.waitAt(ctx, h)
 		return ctx.Err()
 	}
+	vg := newGate() // ValidateBlockProposal parks on it and on its context
+	vg.Open()
+	var vMu sync.Mutex
+	var vCtx context.Context
+	nd.BU.OnValidate = func(ctx context.Context, h uint64, b *spi.Blk) {
+		vMu.Lock()
+		vCtx = ctx
+		vMu.Unlock()
+		vg.waitAt(ctx, h)
+	}
+	lastVCtx := func() context.Context { vMu.Lock(); defer vMu.Unlock(); return vCtx }
 	sendGate := newGate()
 	sendGate.Open()
 	net.HoldSend = func(from *RNode, m *interfaces.ConsensusRawMessage) {
@@ -114,6 +125,7 @@ func RunCommitSync(seed int64, idx int) *Result {
 	finish := func() *Result {
 		g.Open()
 		rg.Open()
+		vg.Open()
 		sendGate.Open()
 		nd.Cancel()
 		c2, cancel2 := context.WithTimeout(context.Background(), 20*time.Second)
@@ -187,6 +199,75 @@ func RunCommitSync(seed int64, idx int) *Result {
 		h0, _ := nd.HV()
 		kind := rng.Intn(10)
 		switch {
+		case kind == 5 && h0 >= 2 && int64(h0-1) > lastSync:
+			// the worker is inside the validation of the view-0 proposal; a sync with the block the node already builds on passes the
+			// main loop (nothing that high was synced before) and waits in the worker's inbox; then the election timer of (h0, 0) fires
+			vg.Close()
+			{
+				blk := &spi.Blk{H: h0, Body: fmt.Sprintf("scripted-%d", h0)}
+				hdr := &ref.Ref{Type: ref.PP, Inst: inst, H: h0, V: 0, Hash: spi.HashOf(blk)}
+				sg := ref.Sig{Id: leader, Sig: net.Keys.SignCM(leader, h0, hdr.Bytes())}
+				nd.ML.HandleConsensusMessage(nd.ctx, ref.RawBlockRefMsg(ref.EnvPP, hdr, sg, nil, blk))
+			}
+			parked := false
+			for i := 0; i < 50000 && !parked; i++ {
+				parked = atomic.LoadInt32(&vg.parked) > 0
+				time.Sleep(100 * time.Microsecond)
+			}
+			if !parked {
+				vg.Open()
+				net.count("inconclusive: validation of the view-0 proposal did not park")
+				return finish()
+			}
+			vc := lastVCtx()
+			if !call(&spi.Blk{H: h0 - 1, Body: "synced"}) {
+				vg.Open()
+				return finish()
+			}
+			lastSync = int64(h0 - 1)
+			nd.Barrier()
+			net.count("C15 stale syncs judged while an SPI call waits")
+			if vc.Err() != nil {
+				net.violate("C15", "older-event-cancelled-the-current-context", "ValidateBlockProposal of (%d,0) was waiting on its context when UpdateState(block %d) — the block the node already builds on — was handled: the context is cancelled", h0, h0-1)
+			}
+			nd.Manual.Fire(nd.ctx, h0, 0)
+			nd.Barrier()
+			net.count("C15 leave stimuli judged")
+			net.count("C15 election triggers judged with a stale sync waiting in the worker's inbox")
+			if vc.Err() == nil {
+				net.violate("C15", "context-not-cancelled-when-told-to-leave", "ValidateBlockProposal of (%d,0) waits on its context; UpdateState(block %d), which is below the height being decided, sits in the worker's inbox; then the election trigger of (%d,0) was handed to the main loop: after a main-loop barrier the context is still live, the SPI call stalls the node", h0, h0-1, h0)
+				vg.Open()
+				return finish()
+			}
+			if nd.Witness(32) < 32 {
+				vg.Open()
+				net.count("inconclusive: worker iterations not witnessed")
+				return finish()
+			}
+			vg.Open()
+			h1, v1 := nd.HV()
+			net.count("C19 current triggers judged")
+			if h1 == h0 && v1 == 0 {
+				for _, p := range []string{"C05", "C19"} {
+					rule := map[string]string{"C05": "election-trigger-lost-in-hand-off", "C19": "current-trigger-not-acted-upon"}[p]
+					net.violate(p, rule, "the election trigger of the registered pair (%d,0) was handed to the main loop while the worker was inside ValidateBlockProposal and a stale sync waited in its inbox; after 32 witnessed worker iterations the node is still in view 0", h0)
+				}
+			}
+			if h1 != h0 {
+				net.violate("C14", "stale-sync-changed-the-height", "UpdateState height %d (below the height %d being decided) moved the node to height %d (view %d)", h0-1, h0, h1, v1)
+			}
+			// back to view 0 of a fresh height for the rounds that follow
+			if !call(&spi.Blk{H: h0, Body: "synced"}) {
+				return finish()
+			}
+			lastSync = int64(h0)
+			staleBefore = false
+			net.SetSeed(nd.Id, h0+1, nil, false)
+			if nd.Witness(16) < 16 {
+				net.count("inconclusive: worker iterations not witnessed")
+				return finish()
+			}
+			prevSig = nil
 		case kind < 6: // a consensus commit of the height being decided, syncs arriving while the commit callback runs
 			park := rng.Intn(4) > 0
 			if park {
